@@ -171,7 +171,7 @@ macro_rules! ans_harnesses {
                     assert!(s1 == state && b1 == bulk, "C09: coder changed by a rejected symbol");
                 } else if flush && bulk.n >= bulk.cap {
                     assert!(matches!(r, Err(CoderError::Backend(()))), "C09: backend failure not reported");
-                    assert!(s1 == state && b1 == bulk, "C09: coder changed by a failed write");
+                    assert!(s1 == state && b1 == bulk, "C09/C01: coder changed by a failed write (what was encoded before no longer decodes)");
                 } else {
                     assert!(r.is_ok(), "C09: spurious error");
                 }
